@@ -8,7 +8,11 @@ use crate::error::{
 use crate::mpmc_v2::backoff;
 use crate::RecvErrorTimeout;
 
-use std::time::{Duration, Instant};
+use std::time::Duration;
+#[cfg(not(all(excsn_fibre_verif, not(loom))))]
+use std::time::Instant;
+#[cfg(all(excsn_fibre_verif, not(loom)))]
+use crate::internal::sync::Instant;
 
 use crate::internal::sync::{thread, AtomicU8, Ordering};
 
